@@ -10,9 +10,27 @@ use crate::props::kit::{Batch, quote};
 use regex::Regex;
 use serde_json::{Value, json};
 use std::sync::Arc;
+use std::sync::atomic::{AtomicBool, Ordering};
+
+/// Line ends of the rendered files: the CRLF phases flip this (phases run one after another). A
+/// carriage return before the line feed is trailing white space of the line, so every expected
+/// verdict, line and column stays what it is with LF.
+static CRLF: AtomicBool = AtomicBool::new(false);
+
+fn crlf() -> bool {
+    CRLF.load(Ordering::Relaxed)
+}
 
 fn run_file(name: &str, text: &str) -> Outcome {
-    librun::run(&Input { files: vec![(name.to_string(), text.to_string())], ..Default::default() })
+    let text = if crlf() { text.replace('\n', "\r\n") } else { text.to_string() };
+    librun::run(&Input { files: vec![(name.to_string(), text)], ..Default::default() })
+}
+
+fn with_crlf<T>(f: impl FnOnce() -> T) -> T {
+    CRLF.store(true, Ordering::Relaxed);
+    let out = f();
+    CRLF.store(false, Ordering::Relaxed);
+    out
 }
 
 fn is_blank(s: &str) -> bool {
@@ -190,7 +208,7 @@ fn c06_configs() -> Vec<C06Config> {
 }
 
 fn c06_check(lines: &[String], configs: &[C06Config], sink: &Sink) {
-    let input = json!({"lines": lines});
+    let input = json!({"lines": lines, "crlf": crlf()});
     let mut distinct = false;
     for numeric in [false, true] {
         let mut batch = Batch::new();
@@ -364,6 +382,8 @@ pub fn run_c06(cfg: &Cfg, sink: &Arc<Sink>) -> Report {
     report.phase(seq_phase("extended-alphabet (unicode, signed zero, exponent, several matches per line)", C06_EXT, cfg.tier.pick(3, 4), cfg, sink, move |lines, sink| c06_check(lines, &c, sink)));
     let c = Arc::clone(&configs);
     report.phase(seq_phase("long blocks over a 4-line alphabet", C06_LONG, cfg.tier.pick(7, 9), cfg, sink, move |lines, sink| c06_check(lines, &c, sink)));
+    let c = configs.clone();
+    report.phase(with_crlf(|| seq_phase("base-alphabet, CRLF line ends", C06_BASE, cfg.tier.pick(3, 4), cfg, sink, move |lines, sink| c06_check(lines, &c, sink))));
     report.phase(conformance_phase("C06", C06_BASE, cfg, sink, render_c06));
     report
 }
@@ -376,6 +396,10 @@ pub fn replay_c06(cfg: &Cfg, input: &Value, sink: &Arc<Sink>) {
             let lib = librun::run(&Input { files: files.clone(), ..Default::default() });
             crate::props::conform::cli_agrees(cfg, &files, &lib, &[], "C06", input, sink);
         }
+        return;
+    }
+    if input["crlf"].as_bool() == Some(true) {
+        with_crlf(|| c06_check(&lines, &c06_configs(), sink));
         return;
     }
     c06_check(&lines, &c06_configs(), sink);
@@ -398,7 +422,7 @@ fn first_duplicate(keys: &[Key]) -> Option<usize> {
 }
 
 fn c07_check(lines: &[String], sink: &Sink) {
-    let input = json!({"lines": lines});
+    let input = json!({"lines": lines, "crlf": crlf()});
     let mut batch = Batch::new();
     let mut expected = Vec::new();
     let mut labels = Vec::new();
@@ -476,6 +500,7 @@ pub fn run_c07(cfg: &Cfg, sink: &Arc<Sink>) -> Report {
     }
     report.phase(seq_phase("base-alphabet", C07_BASE, cfg.tier.pick(4, 5), cfg, sink, c07_check));
     report.phase(seq_phase("long blocks over a 4-line alphabet", C07_LONG, cfg.tier.pick(7, 9), cfg, sink, c07_check));
+    report.phase(with_crlf(|| seq_phase("base-alphabet, CRLF line ends", C07_BASE, cfg.tier.pick(3, 4), cfg, sink, c07_check)));
     report.phase(conformance_phase("C07", C07_BASE, cfg, sink, render_c07));
     report
 }
@@ -490,6 +515,10 @@ pub fn replay_c07(cfg: &Cfg, input: &Value, sink: &Arc<Sink>) {
         }
         return;
     }
+    if input["crlf"].as_bool() == Some(true) {
+        with_crlf(|| c07_check(&lines, sink));
+        return;
+    }
     c07_check(&lines, sink);
 }
 
@@ -501,7 +530,7 @@ const C08_BASE: &[&str] = &["abc", "ab1", "  abc", "abc  ", "", "   ", "x1y", "1
 const C08_PATTERNS: &[&str] = &["^[a-z]+$", "[0-9]", "^x", "y$", r"^\S+$"];
 
 fn c08_check(lines: &[String], sink: &Sink) {
-    let input = json!({"lines": lines});
+    let input = json!({"lines": lines, "crlf": crlf()});
     let mut batch = Batch::new();
     let mut expected = Vec::new();
     for p in C08_PATTERNS {
@@ -560,6 +589,7 @@ pub fn run_c08(cfg: &Cfg, sink: &Arc<Sink>) -> Report {
     report.assume("regex crate semantics are trusted for whether a pattern matches a given string");
     report.phase(seq_phase("base-alphabet", C08_BASE, cfg.tier.pick(4, 5), cfg, sink, c08_check));
     report.phase(seq_phase("long blocks over a 4-line alphabet", C08_LONG, cfg.tier.pick(7, 9), cfg, sink, c08_check));
+    report.phase(with_crlf(|| seq_phase("base-alphabet, CRLF line ends", C08_BASE, cfg.tier.pick(3, 4), cfg, sink, c08_check)));
     report.phase(conformance_phase("C08", C08_BASE, cfg, sink, render_c08));
     report
 }
@@ -572,6 +602,10 @@ pub fn replay_c08(cfg: &Cfg, input: &Value, sink: &Arc<Sink>) {
             let lib = librun::run(&Input { files: files.clone(), ..Default::default() });
             crate::props::conform::cli_agrees(cfg, &files, &lib, &[], "C08", input, sink);
         }
+        return;
+    }
+    if input["crlf"].as_bool() == Some(true) {
+        with_crlf(|| c08_check(&lines, sink));
         return;
     }
     c08_check(&lines, sink);
@@ -651,7 +685,7 @@ fn c09_check(seq: &[u8], sink: &Sink) {
     for &layout in layouts {
         // SameLine puts the first content line on the tag's line; a comment or nested tag there
         // would merge with nothing (it is a separate `//` comment), so every line kind is fine.
-        let input = json!({"seq": seq, "layout": format!("{layout:?}")});
+        let input = json!({"seq": seq, "layout": format!("{layout:?}"), "crlf": crlf()});
         // The text between the end of the start comment and the start of the end comment.
         let content: String = match layout {
             C09Layout::OwnLine => format!("\n{}", lines.iter().map(|l| format!("{l}\n")).collect::<String>()),
@@ -738,11 +772,26 @@ pub fn run_c09(cfg: &Cfg, sink: &Arc<Sink>) -> Report {
         cfg.threads,
         cfg.tier == Tier::Thorough,
     ));
+    let depth = cfg.tier.pick(4, 5);
+    report.phase(with_crlf(|| {
+        engine::explore(
+            "content-sequences × layouts × grid, CRLF line ends",
+            &format!("all sequences of ≤{depth} content lines, files rendered with CRLF line ends"),
+            Sequences { alphabet: C09_LINES.len() as u8, max_len: depth, check: |seq: &[u8], sink: &Sink| c09_check(seq, sink) },
+            sink,
+            cfg.threads,
+            false,
+        )
+    }));
     report
 }
 
 pub fn replay_c09(_cfg: &Cfg, input: &Value, sink: &Arc<Sink>) {
     let seq: Vec<u8> = serde_json::from_value(input["seq"].clone()).unwrap_or_default();
+    if input["crlf"].as_bool() == Some(true) {
+        with_crlf(|| c09_check(&seq, sink));
+        return;
+    }
     c09_check(&seq, sink);
 }
 
